@@ -40,7 +40,7 @@ func (c16) Describe() engine.Info {
 			"Oracle: 162 cycles after the last start OAM holds, byte for byte, a value the source byte had during that transfer; reads of FE00-FEFF return FF from cycle 2 to 160 of a running transfer (0, 1, 161: either) and data / 00 afterwards; nothing else changes OAM. Signature = (source region, restarted?, restart phase class, source changed during transfer?)." +
 			" The LCD may be switched (or LCDC rewritten) while the transfer runs. Environment dimensions as C12. One scenario in eight (after the sweep) first stores a value F2-FF and replaces that transfer within 161 cycles by a proper one, which is judged; one in five stores into OAM cells from the CPU while the transfer runs (LCD off), aimed at the cell being copied: 162 cycles all the same. Classes dma-pointer-traffic (INC DE / DEC DE with DE inside OAM in the first cycles of the transfer, LCD on), dma-hram-routine (the CPU runs the customary routine out of high RAM; the start is taken from the bus tap), MBC3 (clock halted or running) and MBC5 cartridges.",
 		Assumptions:    []string{"LCD off (OAM otherwise plain) in two thirds of the scenarios; in the others the LCD is on, OAM is read only while the transfer blocks it, and the result is judged through the side-effect-free accessor; the CPU is parked in high RAM", "a source byte changed while the copy runs may be copied old or new"},
-		RequiredProbes: []string{"lcd_switched_during_transfer", "oam_read_during_transfer_in_mode2", "dma_started", "dma_restarted_while_running", "source_changed_during_transfer", "oam_read_during_transfer", "echo_source", "out_of_range_value_then_restart", "oam_store_during_transfer", "pointer_traffic_during_transfer", "cartridge_clock_halted", "dma_started_by_the_cpu_routine"},
+		RequiredProbes: []string{"lcd_switched_during_transfer", "oam_read_during_transfer_in_mode2", "dma_started", "dma_restarted_while_running", "source_changed_during_transfer", "oam_read_during_transfer", "echo_source", "out_of_range_value_then_restart", "oam_store_during_transfer", "pointer_traffic_during_transfer", "cartridge_clock_halted", "dma_started_by_the_cpu_routine", "mbc1_mode1_low_window_remapped"},
 		RealComponents: realComponents, StubComponents: stubComponents,
 		Sweeps: []string{"every source page 00-F1 (indices 0..241)"},
 	}
@@ -59,7 +59,18 @@ func (c16) Generate(r *engine.Rand, index int, tier string) *engine.Scenario {
 			sc.Cart.Kind, sc.Cart.Type = "mbc5", 0x1b
 		}
 	}
+	bigMBC1 := index%7 == 5 && index >= 0xf2
+	if bigMBC1 {
+		// an MBC1 cartridge of 1 or 2 MiB in mode 1: the upper bank bits also choose the page seen at
+		// 0000-3FFF, before and during transfers out of that window
+		sc.Cart.RomCode = uint8(r.Range(5, 6))
+		sc.SetP("mbc1_mode1", 1)
+		sc.SetP("mbc1_bank2", int64(r.Intn(4)))
+	}
 	page := uint8(r.Intn(0xf2))
+	if bigMBC1 && r.Chance(2, 3) {
+		page = uint8(r.Intn(0x40))
+	}
 	if index < 0xf2 {
 		page = uint8(index)
 	}
@@ -241,6 +252,13 @@ func (c16) Execute(sc *engine.Scenario) *engine.Result {
 		oamInit[i] = fr.Byte()
 	}
 	m.OAM.VerifPoke(oamInit)
+	if sc.P("mbc1_mode1", 0) != 0 {
+		for _, w := range [][2]int{{0x6000, 0x01}, {0x4000, int(sc.P("mbc1_bank2", 0))}} {
+			m.Write(uint16(w[0]), uint8(w[1]))
+			ct.Write(uint16(w[0]), uint8(w[1]))
+		}
+		res.Probe("mbc1_mode1_low_window_remapped")
+	}
 	if sc.Cart.Kind == "mbc3" && sc.P("rtc_halt", 0) != 0 {
 		for _, w := range [][2]int{{0x0000, 0x0a}, {0x4000, 0x0c}, {0xa000, 0x40}, {0x4000, 0x00}} {
 			m.Write(uint16(w[0]), uint8(w[1]))
@@ -272,9 +290,18 @@ func (c16) Execute(sc *engine.Scenario) *engine.Result {
 	allowed := make([]map[uint8]bool, 0xa0) // values each source byte had during the transfer
 	expect := oamInit                       // OAM contents when no transfer is running
 	snapshot := func() {
+		// byte i is fetched and stored around cycle i+2 of the transfer: what the source byte holds in the
+		// cycles around that (two either way) is what OAM may end up holding - not what it held long
+		// before (a transfer that fetched everything up front) or long after
+		el := int(m.N - start)
 		for i := 0; i < 0xa0; i++ {
 			if allowed[i] == nil {
 				allowed[i] = map[uint8]bool{}
+			}
+			if i+2 < el-2 || i+2 > el+2 {
+				if len(allowed[i]) > 0 || i+2 > el+2 {
+					continue
+				}
 			}
 			allowed[i][srcByte(srcBase+uint16(i))] = true
 		}
